@@ -2,7 +2,7 @@
    This file holds only the statements; each is closed by [exact]. *)
 From Coq Require Import ZArith Bool List.
 From F2G Require Import Go.GoFloat Model.Exec Proofs.ExecCmd Proofs.ExecLinks.
-From F2G Require Drv.Exec.
+From F2G Require Drv.Exec Drv.ExecHist.
 Import ListNotations.
 Open Scope Z_scope.
 
@@ -22,6 +22,17 @@ Theorem C19_observer_is_the_property : forall c : Drv.Exec.case,
   Drv.Exec.holdsb c = true <-> Drv.Exec.Holds c.
 Proof. exact Drv.Exec.holdsb_spec. Qed.
 Print Assumptions C19_observer_is_the_property.
+
+(* the same for histories of calls on one executable (driver `exechist`) *)
+Theorem C19_history_no_false_alarm : forall c : Drv.ExecHist.case,
+  Forall ExecLink.case_wf c -> Drv.ExecHist.mismatch c = false -> Drv.ExecHist.holdsb c = true.
+Proof. exact ExecHistLink.exechist_no_false_alarm. Qed.
+Print Assumptions C19_history_no_false_alarm.
+
+Theorem C19_history_observer_is_the_property : forall c : Drv.ExecHist.case,
+  Drv.ExecHist.holdsb c = true <-> Forall Drv.Exec.Holds c.
+Proof. exact Drv.ExecHist.holdsb_spec. Qed.
+Print Assumptions C19_history_observer_is_the_property.
 
 (* non-vacuity: a well-formed, agreeing case; a hang and a late return are rejected *)
 Example C19_link_nonvacuous :
